@@ -140,3 +140,13 @@ func init() {
 		"the ordering clause (no transfer byte before authentication) is decided for the extra-connection functions on the vquic byte log; for the primary connection inside runICEQUICTransfer / runTransfer it is not decided by this check (those regions are not drivable without ICE)",
 	}, Parts: []*PartSpec{{Name: "auth", Harness: "c08", Instrument: true, Shards: 16, GoMaxProcs: 1, ImportMap: quicMap}}})
 }
+
+func init() {
+	register("C09", &CheckSpec{Level: "model_checking", Assumptions: []string{
+		"handshakes are modelled by the vquic network level: first flight, server-side completion (connection queued for Accept), client-side completion are separate scheduling points; a dial whose context is cancelled before the client side completes leaves an established server-side connection behind that the client closes",
+		"the accepting side is the receiver's real acceptOnce closure (sliced verbatim out of runTransfer) followed by the commit/authenticate sequence of runTransfer reproduced in the harness; the delayed reverse dial of the receiver (500 ms) is not part of the harness",
+	}, Parts: []*PartSpec{{Name: "race", Harness: "c09", Instrument: true, Shards: 16, GoMaxProcs: 1, ImportMap: quicMap,
+		Generate: func(w *work, dir string, ov map[string]string) (map[string]string, error) {
+			return sliceClosure(w, dir, "./internal/app", "runTransfer", "acceptOnce", "Verif_acceptOnce")
+		}}}})
+}
